@@ -69,6 +69,20 @@ fn execute(
             honour_ceiling: false,
         }))
         .error_channel(crate::flw::error_channel());
+    // an additional writer whose own ceiling lies below most specifications: the gate is the
+    // maximum of the active specification and the writers' ceilings, never the writers' alone
+    // (chosen from the first submitted specification, so that every execution of a case agrees)
+    let builder = match initial.entries.len() % 3 {
+        0 => builder,
+        k => builder.add_writer(
+            "A",
+            Box::new(RecWriter {
+                rec: Recorder::default(),
+                ceiling: if k == 1 { LevelFilter::Error } else { LevelFilter::Off },
+                honour_ceiling: true,
+            }),
+        ),
+    };
     let specfile = watch.map(|(d, _)| d.join("logspec.toml"));
     let built = match &specfile {
         // the file does not exist yet: it is created with the initial specification
